@@ -168,7 +168,8 @@ def to_puzz_link_url(height, width, pos):
 
 
 def parse_puzz_link_url(url):
-    height, width, body = url.split("/")[-3:]
+    # puzz.link URLs carry the width before the height (see to_puzz_link_url)
+    width, height, body = url.split("/")[-3:]
     height = int(height)
     width = int(width)
 
